@@ -22,7 +22,11 @@ from concurrent.futures import ThreadPoolExecutor
 import vlib
 from vlib import KINDS, NPROC, OUT, SPEC, JAVA_CP, build, cfg_line, log, sh, judge_batch, tlc_trace, max_keys
 
-C06_TAGS = ["C01", "C02", "C03", "C09", "C11", "C17", "C18", "SPEC", "C06"]
+# "under the sequential rules of the other properties": the whole specification is the sequential
+# rule book.  Victims and reaping are still taken from the projection after every critical section
+# (resynchronisation), the policy judgements then check them against the hidden order the
+# specification carries along the linearization.
+C06_TAGS = list(vlib.ALL_TAGS)
 
 METHODS = {
     "lru": ["ins", "insr", "era", "erar", "find", "findr", "findf", "size", "empty", "capacity"],
@@ -82,15 +86,15 @@ def gen_program(rng, kind, nthreads, ncalls):
         if kind == "tlru":
             pre = ["ins %d %d 3 %d" % (rng.randint(1, keys), rng.randint(1, 9), short) for _ in range(rng.randint(1, cap + 1))]
             pre += [gen_call(rng, kind, keys, "ins") for _ in range(rng.randint(0, 1))]
-            pre.append("tick %d" % rng.choice([short, short + 1]))
+            pre.append("tick %d" % rng.choice([4 * short - 1, 4 * short, 4 * short + 1]))
         else:
-            pre.append("tick %d" % rng.choice([cfg["ttl"], cfg["ttl"] + 1]))
+            pre.append("tick %d" % rng.choice([4 * cfg["ttl"] - 1, 4 * cfg["ttl"], 4 * cfg["ttl"] + 1]))
     thr = [[gen_call(rng, kind, keys) for _ in range(ncalls)] for _t in range(nthreads)]
     post = []
     if kind in vlib.TTL_KINDS:
-        post = ["tick 4", "obs", "tick 1", "obs", "tick 44", "obs", "tick 1", "obs"]
+        post = ["tick 19", "obs", "tick 1", "obs", "tick 179", "obs", "tick 1", "obs"]
     elif kind == "lfuda":
-        post = ["tick 3", "age", "obs"]
+        post = ["tick 9", "age", "obs"]
     return dict(cfg=cfg, pre=pre, thr=thr, post=post)
 
 
@@ -319,7 +323,7 @@ def parse_program(lines):
         t = ln.split()
         if t[0] == "cfg":
             cfg = dict(kind=t[1], cap=int(t[2]), ts=int(t[3]), mlf=int(t[4]), ttl=int(t[5]), tick=int(t[6]),
-                       rnum=int(t[7]), rsh=int(t[8]), fl=int(t[9]), keys=int(t[10]))
+                       rnum=int(t[7]), rsh=int(t[8]), fl=int(t[9]), keys=int(t[10]), us=int(t[11]) if len(t) > 11 else 250)
         elif t[0] == "pre":
             pre.append(" ".join(t[1:]))
         elif t[0] == "post":
